@@ -174,7 +174,12 @@ func verifHarnessC11RunLoop() {
 	maxTicks := param("ticks")
 	ctx := &verifCtx{tag: "poller"}
 	tk := &verifLoopTicker{}
-	tk.ch = envChanDyn[time.Time]("ticker", func() bool { return !ctx.cancelled }, func() { ticks++ })
+	tk.ch = envChanDyn[time.Time]("ticker", func() bool { return !ctx.cancelled }, func() {
+		ticks++
+		if ticks > maxTicks {
+			ctx.cancelled = true // the owner eventually closes the store in any case
+		}
+	})
 	s.newTicker = func(time.Duration) Ticker { return tk }
 	// the owner closes the store after some ticks
 	polls := 0
@@ -186,7 +191,8 @@ func verifHarnessC11RunLoop() {
 	}
 	done := make(chan struct{})
 	s.run(ctx, time.Hour, done)
-	assert("one-poll-per-tick", and(ghostCount("sf.dochan") == ticks, polls == ticks))
+	assert("one-poll-per-tick", ghostCount("sf.dochan") == ticks)
+	assert("every-tick-acknowledged", polls == ticks)
 	assert("ticker-stopped", tk.stopped)
 	assert("flushed-on-exit", ghostCount("cache.write.call") >= 1)
 	assert("lock-released", notHeld(&s.active.Mutex))
